@@ -76,17 +76,42 @@ func isNilNode(n ast.Node) bool {
 
 func identityBundle(cb *compiled) *mapBundle {
 	b := &mapBundle{msgs: map[uint64]*soymsg.Message{}}
+	// the parts of a plural case body: its text (marked) and its placeholders
+	caseParts := func(body ast.ParentNode) []soymsg.Part {
+		var parts []soymsg.Part
+		for _, c := range body.Children() {
+			switch c := c.(type) {
+			case *ast.RawTextNode:
+				parts = append(parts, soymsg.RawTextPart{Text: "«" + string(c.Text) + "»"})
+			case *ast.MsgPlaceholderNode:
+				parts = append(parts, soymsg.PlaceholderPart{Name: c.Name})
+			}
+		}
+		return parts
+	}
 	for _, t := range cb.reg.Templates {
 		collectMsgs(t.Node, func(m *ast.MsgNode) {
-			hasPlural := false
+			var plural *ast.MsgPluralNode
 			for _, c := range m.Body.Children() {
-				if _, ok := c.(*ast.MsgPluralNode); ok {
-					hasPlural = true
+				if p, ok := c.(*ast.MsgPluralNode); ok {
+					plural = p
 				}
 			}
-			if !hasPlural {
+			if plural == nil {
 				b.msgs[m.ID] = soymsg.NewMessage(m.ID, "«"+soymsg.PlaceholderString(m)+"»")
+				return
 			}
+			// a plural message: the forms "one" (the source's {case 1} if it has one) and "other"
+			one := plural.Default
+			for _, pc := range plural.Cases {
+				if pc.Value == 1 {
+					one = pc.Body
+				}
+			}
+			b.msgs[m.ID] = &soymsg.Message{ID: m.ID, Parts: []soymsg.Part{soymsg.PluralPart{VarName: plural.VarName, Cases: []soymsg.PluralCase{
+				{Spec: soymsg.PluralSpec{Type: soymsg.PluralSpecOne}, Parts: caseParts(one)},
+				{Spec: soymsg.PluralSpec{Type: soymsg.PluralSpecOther}, Parts: caseParts(plural.Default)},
+			}}}}
 		})
 	}
 	return b
